@@ -72,7 +72,8 @@ func (s *set[ElementType]) DeleteAll(other ReadableSet[ElementType]) (removedEle
 
 	removedElements = NewSet[ElementType]()
 	_ = other.ForEach(func(element ElementType) (err error) {
-		if s.Delete(element) {
+		// not s.Delete: it would acquire applyMutex.RLock again, which deadlocks once a writer (Apply) is waiting
+		if s.OrderedMap.Delete(element) {
 			removedElements.Add(element)
 		}
 
